@@ -354,6 +354,27 @@ pub fn random_case(rng: &mut Rng, ts: &[usize], focus: u8) -> SysCase {
         st.w[HL] = rng.u16() | 0x0101;
         st.w[BC] = rng.u16() | 0x0101;
     }
+    if focus == 3 {
+        // the instruction's own bytes straddle a window boundary: its last byte (a displacement, an operand) is
+        // the last byte of a 16K window whose neighbour has the other contention class, so the address carried
+        // by the internal T-states that follow matters (pc+1 vs pc+2)
+        let ins: Vec<u8> = match rng.below(12) {
+            0 | 1 => vec![0x18, rng.u8()],                          // JR d
+            2 => vec![[0x20u8, 0x28, 0x30, 0x38][rng.below(4) as usize], rng.u8()], // JR cc,d
+            3 | 4 => vec![0x10, rng.u8()],                          // DJNZ d
+            5 => vec![0xDD, 0x34, rng.u8()],                        // INC (IX+d)
+            6 => vec![0xFD, 0x36, rng.u8(), rng.u8()],              // LD (IY+d),n
+            7 => vec![0xDD, 0xCB, rng.u8(), 0x06 | (rng.u8() & 0xF8)],
+            8 => vec![0xED, 0xB0],
+            9 => vec![0xCD, rng.u8(), 0x81],                        // CALL nn
+            _ => random_instr(rng),
+        };
+        let edge = [0x8000u16, 0xC000, 0x8000, 0xC000][rng.below(4) as usize];
+        st.w[PC] = edge.wrapping_sub(1 + rng.below(ins.len() as u64) as u16);
+        code.clear();
+        code.extend(ins);
+        st.w[BC] = (st.w[BC] & 0x00FF) | 0x0200;
+    }
     while code.len() < 48 {
         code.extend(random_instr(rng));
     }
@@ -423,8 +444,8 @@ pub fn lockstep(o: &Opts, rep: &mut Report, prop: &str, n: u64, ts48: &[usize], 
         let mut r = rng.fork();
         // a third of the cases: a block instruction with HL and DE on window boundaries inside the picture;
         // a sixth: 16-bit loads/stores/stack operations straddling the window boundaries
-        let focus_kind: u8 = if word_focus { 2 } else { match k % 6 { 1 | 3 => 1, 5 => 2, _ => 0 } };
-        let focus = focus_kind == 1;
+        let focus_kind: u8 = if word_focus { 2 } else { match k % 6 { 1 | 3 => 1, 5 => 2, 2 => 3, _ => 0 } };
+        let focus = focus_kind == 1 || focus_kind == 3;
         let mut c = random_case(&mut r, ts48, focus_kind);
         if c.m128 {
             let l = 70908;
